@@ -211,11 +211,11 @@ class Mapping(Mappable):
         start_size = len(self.maps)
         while i < len(mapping.maps):
             mirr = mapping.get_mirror(i)
-            i += 1
             self.append_map(
                 mapping.maps[i],
                 (start_size + mirr) if (mirr is not None and mirr < i) else None,
             )
+            i += 1
 
     def get_mirror(self, n: int) -> int | None:
         if self.mirror:
